@@ -309,7 +309,24 @@ def cases(draw, tier):
     if entry in ("inv_quad_logdet", "fn.inv_quad_logdet"):
         case["logdet"] = ldf
     case["settings"] = cell
+    if "max_cholesky_size" not in cell and not tri and draw(st.integers(0, 2)) == 0:
+        # a query issued on the SAME operator object beforehand (fills its caches): the values must not depend on it.
+        # Only in cells that take the deterministic path anyway, so that the expected path is unchanged.
+        case["warm"] = draw(st.sampled_from(WARM))
     return case
+
+
+WARM = ["root_inv_decomposition", "cholesky", "root_decomposition", "diagonalization", "solve", "inv_quad_logdet", "logdet", "to_dense"]
+
+
+def _warm(op, kind):
+    n = op.shape[-1]
+    if kind == "solve":
+        op.solve(torch.ones(*op.batch_shape, n, 1, dtype=op.dtype))
+    elif kind == "inv_quad_logdet":
+        op.inv_quad_logdet(torch.ones(*op.batch_shape, n, 1, dtype=op.dtype), logdet=True)
+    else:
+        getattr(op, kind)()
 
 
 def strategy(tier):
@@ -610,6 +627,16 @@ def check(case):
     nodes = []
     lines = []
     raised = None
+    warm_label = "warm:none"
+    with state.apply_settings(cell):
+        if case.get("warm"):
+            try:
+                with torch.no_grad():
+                    _warm(op, case["warm"])
+                warm_label = "warm:" + case["warm"]
+            except Exception:
+                # the warm-up query itself is another property's business; a half-filled cache is still a legal history
+                warm_label = "warm:%s:raised" % case["warm"]
     with state.apply_settings(cell), state.linalg_log() as lines:
         try:
             iq, ld = _call(op, entry, rhs, reduce_, want_ld)
@@ -652,7 +679,7 @@ def check(case):
     else:
         path = "closed"
     seen["path"] = path
-    labels = ["head:" + head, "entry:" + entry, "path:" + path, "dtype:" + dtname, "batch:%d" % len(batch), "n:%d" % n,
+    labels = [warm_label, "head:" + head, "entry:" + entry, "path:" + path, "dtype:" + dtname, "batch:%d" % len(batch), "n:%d" % n,
               "rhs:" + case.get("rhs_kind", "none"), "depth:%d" % R.depth(r)]
     labels += ["class:" + c for c in R.classes(r)]
     labels += ["set:%s=%s" % (k, v) for k, v in sorted(cell.items())]
